@@ -118,6 +118,42 @@ def run(rep, tier, rng):
                        "different bytes for the same layout", "case": ref_cases[(mism or vm)[0]]}, nofail=True)
     rep.sample({"type": files[0]["code"], "constructor_calls": files[0]["specs"][:2], "calls": files[0]["calls"]})
     rep.cov["oracle"] = {"files": len(files), "failing": nfail}
+    # ---- the file left by DROP after a finalize that failed (one-shot fault at any operation of the header rewrite,
+    # either destination), with or without further writes: still a well-formed shapefile holding what was written
+    fcases, fmeta = [], []
+    for code in (shapes.ALL_CODES if tier == "thorough" else rng.sample(shapes.ALL_CODES, 4)):
+        a, b = shapes.gen_ctor(rng, code, "small"), shapes.gen_ctor(rng, code, "small")
+        b0 = C.parse_whist(sfv.run_impl(dev, [C.whist_case(True, 0, [("w", a)])])[0])
+        if "special" in b0:
+            continue
+        for dest, n0 in ((1, b0["shp"]["ops"] - 16), (2, b0["shx"]["ops"] - 16)):
+            for j in (range(16) if tier == "thorough" else (0, 3, 9, 14, 15)):
+                for later in ([], [("w", b)]):
+                    for hs in ((True, False) if dest == 1 else (True,)):
+                        fcases.append(C.whist_case(hs, 0, [("w", a), ("f",)] + later, fault=(dest, n0 + j, 0)))
+                        fmeta.append((code, 1 + len(later), dest, j))
+    fimpl = stages.correspondence(rep, "whist_failed_finalize", dev, fcases, "whist(finalize failing once, then drop)")
+    for c, (code, nrec, dest, j), r in zip(fcases, fmeta, fimpl):
+        res = C.parse_whist(r)
+        msg = None
+        if "special" in res:
+            msg = "writer panicked"
+        elif res["results"][1][0] != "err":
+            continue                                   # the fault fell outside the finalize (destination without that operation)
+        else:
+            try:
+                m = refesri.strict_decode_shp(res["shp"]["buf"], require_numbering=True)
+                if len(m["records"]) != nrec:
+                    msg = "holds %d records, %d were written" % (len(m["records"]), nrec)
+            except refesri.Malformed as e:
+                msg = str(e)
+        if msg:
+            nfail += 1
+            rep.violation({"kind": "oracle", "what": "the .shp left by drop after a finalize that failed once (operation %d of the "
+                           "header rewrite on destination %d) is not a well-formed shapefile of the written shapes: %s"
+                           % (j, dest, msg), "case_kind": "whist", "case": c})
+            break
+    rep.cov["drop_after_failed_finalize_cases"] = len(fcases)
     # files created by path (ShapeWriter::from_path), also at a path that already holds longer files and under dotted /
     # upper-case names: what is left on disk must be exactly the well-formed bytes of the in-memory writer
     P.path_situations(rep, files[:16 if tier != "thorough" else 48], "c02", with_reads=False)
